@@ -73,6 +73,11 @@ def check(run):
             if run.rng.random() < 0.35:
                 # an earlier, longer output is already there (a previous run with other settings, or of a longer stylesheet)
                 files["site/main_cm.css"] = css.encode() + STALE_TAIL
+            if run.rng.random() < 0.5:
+                # stylesheets the tool has to give up on (undecodable bytes), wherever the traversal meets them: before, between
+                # and after the valid ones — every valid stylesheet must still get its sibling output
+                for bad in ("site/0_bad.css", "site/zz_bad.css", "site/sub/bad.css", "site/sub/deep/zz_bad.css"):
+                    files[bad] = b"\xff\xfe .a { color: #777 } \x80"
             jobs.append((files, "site", args)); metas.append((files, "site", dbg, mode, prem))
         else:
             name = run.rng.choice(["a.css", "my.style.css", "sub/x.css", "Ünï.css", "with space.css", "theme_cm.css", "lib.min.css"])
@@ -85,7 +90,7 @@ def check(run):
     with mp.get_context("fork").Pool(16) as p:
         impls = p.map(cli_workers.run_cli, jobs, chunksize=2)
     for (files, target, dbg, mode, prem), im in zip(metas, impls):
-        case = {"files": {k: v.decode("utf-8", "replace") for k, v in files.items()}, "target": target, "default_bg": dbg, "mode": mode, "premium": prem}
+        case = {"files": {k: v.decode("utf-8", "backslashreplace") for k, v in files.items()}, "target": target, "default_bg": dbg, "mode": mode, "premium": prem}
         so = cli_workers.parse_stdout(im["stdout"])
         run.count(json.dumps(case), so["tuned"] > 0)
         run.hit("invocation.%s" % ("directory" if target == "site" else "file"))
@@ -93,6 +98,17 @@ def check(run):
             run.violation("the cm-colors command raised", case, details={"exception": im["exception"]}); continue
         # directory runs skip *_cm.css; a file given directly is processed whatever its name
         css_inputs = [k for k in files if k.endswith(".css") and not k.endswith("_cm.css")] if target == "site" else [target]
+        undecodable = set()
+        for k in css_inputs:
+            try:
+                files[k].decode("utf-8")
+            except UnicodeDecodeError:
+                undecodable.add(k)
+        if undecodable:
+            run.hit("invocation.directory_with_undecodable_files")
+            for k in sorted(undecodable):
+                if k[:-4] + "_cm.css" in im["after"]:
+                    run.violation("an output was written for a stylesheet that cannot be decoded", case, details={"file": k})
         allowed = set()
         for k in css_inputs:
             allowed.add(k[:-4] + "_cm.css")
@@ -116,6 +132,8 @@ def check(run):
         for c in cards:
             adjusted.setdefault(c.get("file"), set()).add(c.get("selector"))
         for k in css_inputs:
+            if k in undecodable:
+                continue
             text = files[k].decode("utf-8")
             ast_in = css_ast.ast_of_css(text)
             out = im["after"].get(k[:-4] + "_cm.css")
